@@ -208,6 +208,15 @@ class IdentSim(object):
         if t[2] != fmt:
             self.viol(i, "construct-wrong-format", "asked %s got %r" % (fmt, t))
             raise Violation()
+        # the name space the identifier belongs to: the SPNameQualifier of the requester's NameIDPolicy when it
+        # has one (affiliations), else the requesting SP itself (documented in nim_args / the SAML core)
+        eff_spq = (ev.get("nip_spq") if ev.get("via") == "nip" and ev.get("nip_spq") else ev.get("spq", "")) or ""
+        if (t[1] or "") != eff_spq:
+            self.viol(i, "construct-wrong-sp-qualifier", "policy=%r caller=%r got %r" % (
+                ev.get("nip_spq") if ev.get("via") == "nip" else None, ev.get("spq"), t))
+            raise Violation()
+        if ev.get("via") == "nip" and ev.get("nip_spq") and ev.get("nip_spq") != ev.get("spq"):
+            self.count("probe.construct.policy-qualifier-differs-from-caller")
         self.m_issue(ev["u"], t, i, rec)
 
     def op_store(self, ev, i, rec):
